@@ -669,19 +669,67 @@ func c13CheckSetPayloadArgs(c *core.Ctx, g *c13Graph) (bool, string) {
 				continue
 			}
 			n++
-			tv := f.Info.Types[call.Args[0]]
-			t := tv.Type
-			okArg := false
-			switch {
-			case t == nil:
-			case tv.IsNil():
-				okArg = httpRecv
-			case c13IsByteSlice(t):
-				okArg = true
-			case httpRecv && c13IsString(t):
-				okArg = true
-			case httpRecv && !c13IsEmptyInterface(t) && types.Implements(t, readerI):
-				okArg = true
+			okType := func(e ast.Expr) (bool, types.Type) {
+				tv := f.Info.Types[e]
+				t := tv.Type
+				switch {
+				case t == nil:
+				case tv.IsNil():
+					return httpRecv, t
+				case c13IsByteSlice(t):
+					return true, t
+				case httpRecv && c13IsString(t):
+					return true, t
+				case httpRecv && !c13IsEmptyInterface(t) && types.Implements(t, readerI):
+					return true, t
+				}
+				return false, t
+			}
+			okArg, t := okType(call.Args[0])
+			// a local of interface type that collects the payload (`var payload interface{} = zr;
+			// ...; payload = data; x.SetPayload(payload)`): every value assigned to it must qualify
+			if id, isID := ast.Unparen(call.Args[0]).(*ast.Ident); !okArg && isID && t != nil && types.IsInterface(t) {
+				if v, isVar := f.Info.Uses[id].(*types.Var); isVar && !v.IsField() && v.Pkg() != nil && v.Parent() != v.Pkg().Scope() {
+					nAssign, allOK := 0, true
+					ast.Inspect(f.Body, func(x ast.Node) bool {
+						switch st := x.(type) {
+						case *ast.AssignStmt:
+							for i, l := range st.Lhs {
+								lid, ok := ast.Unparen(l).(*ast.Ident)
+								if !ok || (f.Info.Defs[lid] != v && f.Info.Uses[lid] != v) {
+									continue
+								}
+								nAssign++
+								if len(st.Lhs) != len(st.Rhs) {
+									allOK = false
+								} else if ok2, _ := okType(st.Rhs[i]); !ok2 {
+									allOK = false
+								}
+							}
+						case *ast.ValueSpec:
+							for i, nm := range st.Names {
+								if f.Info.Defs[nm] != v {
+									continue
+								}
+								nAssign++
+								if len(st.Values) != len(st.Names) {
+									allOK = false // zero value of an interface: nil, only valid for HTTP
+									if len(st.Values) == 0 && httpRecv {
+										allOK = true
+									}
+								} else if ok2, _ := okType(st.Values[i]); !ok2 {
+									allOK = false
+								}
+							}
+						case *ast.UnaryExpr:
+							if aid, ok := ast.Unparen(st.X).(*ast.Ident); ok && st.Op == token.AND && f.Info.Uses[aid] == v {
+								allOK = false
+							}
+						}
+						return true
+					})
+					okArg = nAssign > 0 && allOK
+				}
 			}
 			if !okArg && bad == "" {
 				bad = sprintf("%s passes a %s to %s (%s)", name, t, full, pos(c, call))
